@@ -240,7 +240,7 @@ class Drain(RuleAnalysis):
         name = _cname(c)
         if name == "_retry_ssl_method":
             # the write-all helper applied to the backlog itself
-            args = [dotted(a) or "" for a in c.args]
+            args = [dotted(through_local(self.fn, a)) or "" for a in c.args]  # arguments may have been bound to locals first
             return bool(args) and any(a.endswith("." + self.backlog) for a in args[1:]) and any(
                 a.split(".")[-1].lstrip("_").endswith(w.lstrip("_")) for a in args[:1] for w in self.drains.get("writers", ()))
         return name in self.drains.get("methods", ()) and isinstance(c.func, ast.Attribute) and dotted(c.func.value) == self.fn.self_name
